@@ -95,7 +95,7 @@ structure HOp where
   name : String
   op : Op
   soon : Bool      -- SetDeadline a few ms ahead: its timer may fire at any later point
-  res : String
+  res : Option Res
   s : Nat
   e : Nat
 
@@ -104,9 +104,9 @@ inductive SR where
   deriving DecidableEq
 
 /-- brute-force linearizability search: depth-first over the operations that are minimal in the
-real-time order, running QSpec; the timer of a near deadline may fire as an internal step.
-`d` bounds the depth (2·n+2 suffices), `b` the number of visited nodes. -/
-def dfs : Nat → Nat → Q → Bool → List HOp → SR × Nat
+real-time order, running QSpec (through `Queue.admits`, the concurrent contract); the timer of a near deadline may fire as an internal step.
+`d` bounds the depth (3·n+3 suffices: every operation, and per operation at most one drain and one timer step), `b` the number of visited nodes. -/
+def dfs : Nat → Nat → LQ → Bool → List HOp → SR × Nat
   | 0, b, _, _, _ => (.budget, b)
   | d + 1, b, q, soon, rem =>
     if rem.isEmpty then (.found, b)
@@ -116,16 +116,29 @@ def dfs : Nat → Nat → Q → Bool → List HOp → SR × Nat
       let r := cands.foldl (fun (acc : SR × Nat) o =>
         if acc.1 ≠ .notFound then acc
         else
-          let (q', res) := step q o.op
-          if resStr res = o.res then
+          match o.res.bind fun r => (q.admits o.op r).map fun q' => (q', r) with
+          | some (q', res) =>
             let soon' := match o.op, res with
               | .setDeadline _, .ok => o.soon
               | _, _ => soon
             dfs d (acc.2 - 1) q' soon' (rem.filter (·.id ≠ o.id))
-          else acc) (.notFound, b - 1)
+          | none => acc) (.notFound, b - 1)
       if r.1 ≠ .notFound then r
-      else if q.armed ∧ soon then dfs d (r.2 - 1) (step q .timerFire).1 false rem
-      else r
+      else
+        -- internal steps: the end of Close's wait; the timer of a near deadline
+        let r := if q.closing then dfs d (r.2 - 1) q.drain soon rem else r
+        if r.1 ≠ .notFound then r
+        else if q.q.armed ∧ soon then
+          dfs d (r.2 - 1) { q with q := (step q.q .timerFire).1 } false rem
+        else r
+
+def parseRes : List String → Option Res
+  | ["ok"] => some .ok
+  | ["val", v] => v.toNat?.map .val
+  | ["eof"] => some (.err .eof)
+  | ["timeout"] => some (.err .timeout)
+  | ["other"] => some (.err .other)
+  | _ => none
 
 def parseQOp (s : String) : Option (Op × Bool) :=
   match s with
@@ -226,7 +239,7 @@ def stepL (st : LS) (ws : List String) : LS × String :=
       if st.obj = "q" then
         match parseQOp op with
         | some (o, soon) =>
-          ({ st with ops := ⟨st.ops.length, g, op, o, soon, " ".intercalate res, s, e⟩ :: st.ops }, "ok")
+          ({ st with ops := ⟨st.ops.length, g, op, o, soon, parseRes res, s, e⟩ :: st.ops }, "ok")
         | none => (st, "bad-op")
       else if st.obj = "t" then ({ st with traw := (g, op, s, e, res) :: st.traw }, "ok")
       else (st, "bad-op")
@@ -237,7 +250,7 @@ def stepL (st : LS) (ws : List String) : LS × String :=
     else if st.obj = "q" then
       let ops := st.ops.reverse
       -- budget exhaustion is reported as ok (inconclusive, never a false alarm)
-      match (dfs (2 * ops.length + 2) 20000000 (Q.init st.cap) false ops).1 with
+      match (dfs (3 * ops.length + 3) 20000000 ⟨Q.init st.cap, false⟩ false ops).1 with
       | .notFound => ({}, "not-linearizable")
       | _ => ({}, "ok")
     else ({}, transportVerdict st.traw.reverse)
